@@ -18,7 +18,9 @@ SOURCES = ['silk/dec_API.c', 'silk/decode_indices.c', 'silk/decode_pulses.c', 's
            'src/opus_decoder.c', 'src/opus.c', 'src/opus_compare.c', 'celt/entdec.c', 'celt/entcode.h', 'celt/entcode.c',
            'celt/celt_decoder.c']
 WRAPPED = ['silk_Decode', 'silk_decode_indices', 'silk_decode_pulses', 'silk_stereo_decode_pred',
-           'silk_stereo_decode_mid_only', 'celt_decode_with_ec', 'celt_decode_with_ec_dred']
+           'silk_stereo_decode_mid_only', 'celt_decode_with_ec', 'celt_decode_with_ec_dred',
+           'ec_dec_bit_logp', 'ec_dec_uint', 'ec_dec_bits', 'ec_dec_icdf', 'ec_decode_bin', 'ec_dec_update',
+           'clt_compute_allocation']
 WRAP = ['-Wl,' + ','.join('--wrap=' + s for s in WRAPPED)]
 
 REQUIRED_THEOREMS = ['OpusProps.C03.' + t for t in (
